@@ -116,6 +116,12 @@ func corruptV2(t *types.V2Transaction) {
 func (r *Runner) Fabricate(g *rng.R, flavor string) *Submission {
 	tip := r.Tip
 	s := &Submission{Flavor: flavor, Basis: r.W.Info(tip).Index}
+	fillerW := 0
+	if strings.HasPrefix(flavor, "filler-v2:") {
+		fmt.Sscanf(flavor[len("filler-v2:"):], "%d", &fillerW)
+		flavor = "filler-v2"
+		s.Flavor = flavor
+	}
 	slackArg := -1
 	if strings.HasPrefix(flavor, "exact-fill-v2:") {
 		fmt.Sscanf(flavor[len("exact-fill-v2:"):], "%d", &slackArg)
@@ -388,6 +394,37 @@ func (r *Runner) Fabricate(g *rng.R, flavor string) *Submission {
 		}
 		se.MerkleProof[g.Intn(len(se.MerkleProof))][0] ^= 1
 		t.SiacoinInputs[0].Parent.StateElement = se
+	case "filler-v2":
+		// one input-less arbitrary-data transaction of the given weight
+		t := types.V2Transaction{ArbitraryData: make([]byte, fillerW)}
+		t.ArbitraryData[0], t.ArbitraryData[1] = 9, byte(g.Intn(250))
+		add2(t, Meta{POK: true})
+	case "filler-v1":
+		e, ok := pick()
+		if !ok {
+			return nil
+		}
+		t, m := r.mkV1(g, tip, e.ID, e.SiacoinOutput.Value, 1_900_000)
+		add1(t, m)
+	case "heavy-chain-v1", "heavy-chain-v2":
+		// a ~200 KB parent followed by a tiny child: with a filler in front of them the parent no
+		// longer fits into a block while the child would
+		e, ok := pick()
+		if !ok {
+			return nil
+		}
+		if v2 {
+			p, m := r.mkV2(g, tip, e, 200_000)
+			add2(p, m)
+			c, m := r.mkV2(g, tip, p.EphemeralSiacoinOutput(len(p.SiacoinOutputs)-1), 0)
+			add2(c, m)
+		} else {
+			p, m := r.mkV1(g, tip, e.ID, e.SiacoinOutput.Value, 200_000)
+			add1(p, m)
+			id, val := changeV1(p)
+			c, m := r.mkV1(g, tip, id, val, 0)
+			add1(c, m)
+		}
 	case "form-v1-require":
 		// a v1 contract whose proof window ends exactly at the v2 require height
 		req := r.W.Env.Net.HardforkV2.RequireHeight
